@@ -1423,6 +1423,19 @@ pub fn fam_surrogates(cfg: &Config, flags: Flags, max_len: usize) -> (Report, Ve
 		if i == k {
 			emit(mon, b"");
 			n += 8;
+			// every two-character escape (and a raw quote-free neighbour) right after / before each
+			// surrogate escape, alone and with one more element on either side
+			let followers = ["\\\"", "\\\\", "\\/", "\\b", "\\f", "\\n", "\\r", "\\t", "/", "\u{7f}"];
+			for sur in &refs[..4] {
+				for f in followers {
+					for third in std::iter::once("").chain(refs.iter().copied()) {
+						for body in [format!("{}{}{}", sur, f, third), format!("{}{}{}", third, sur, f), format!("{}{}{}", f, sur, third)] {
+							emit(mon, body.as_bytes());
+							n += 8;
+						}
+					}
+				}
+			}
 		} else {
 			for len in 1..=max_len {
 				gen::for_each_seq(&refs, len, &[i], &mut |b, _| {
@@ -1682,7 +1695,15 @@ pub fn fam_large(cfg: &Config, flags: Flags, docs: usize, nodes: usize) -> (Repo
 			let n = nodes.min(20000);
 			let mut entries = Vec::with_capacity(n);
 			for j in 0..n {
-				let k = if rng.chance(1, 10) { "dup".to_string() } else { format!("k{}", rng.below(n / 2 + 1)) };
+				// every other such object: keys longer than any inline capacity that share their first and
+				// their last bytes and differ in the middle only
+				let k = if rng.chance(1, 10) {
+					"dup".to_string()
+				} else if i % 4 == 2 {
+					format!("urn:item:{:05}:description", rng.below(n / 2 + 1))
+				} else {
+					format!("k{}", rng.below(n / 2 + 1))
+				};
 				entries.push((k, RVal::Num(format!("{}", j))));
 			}
 			RVal::Obj(entries)
@@ -2163,4 +2184,30 @@ pub fn selftest_reference(cfg: &Config) -> Result<usize, String> {
 		return Err(format!("reference spans self-test: got {:?}, want {:?}", spans, want));
 	}
 	Ok(n)
+}
+
+/// Thousands of containers open at once, then a wrong character: the error is at that character,
+/// not at one of the brackets before it (a nesting limit would report one of those).
+pub fn fam_deep_errors(cfg: &Config, flags: Flags) -> (Report, Vec<u8>) {
+	let name = "errors-below-thousands-of-open-containers";
+	let depths: &'static [usize] = if cfg.san { &[300, 1030] } else { &[1023, 1024, 1025, 4095, 4096, 4097, 5000, 9000, 20_000, 65_537] };
+	run_family(cfg, flags, name, depths.len(), &move |i, mon| {
+		let d = depths[i];
+		let mut n = 0u64;
+		for shape in 0..4usize {
+			let mut doc: Vec<u8> = Vec::with_capacity(d * 6 + 8);
+			for l in 0..d {
+				match shape {
+					0 => doc.push(b'['),
+					1 => doc.extend_from_slice(b"{\"a\":"),
+					_ => doc.extend_from_slice(if l % 2 == 0 { b"[" } else { b"{\"k\":" }),
+				}
+			}
+			doc.extend_from_slice(if shape == 3 { b"1 x" } else { b"x" });
+			mon.input(name, &doc);
+			n += 1;
+		}
+		mon.rep.max("most_containers_open_at_an_error", d as u64);
+		mon.rep.distinct_by_construction(n);
+	})
 }
